@@ -260,6 +260,19 @@ class SpecRewriter(ast.NodeTransformer):
                                   ctx=ast.Load()),
                     args=[ast.GeneratorExp(elt=body, generators=gens)],
                     keywords=[])
+            if n == "forall2":
+                i, n1, k, n2, body = node.args
+                n1, n2, body = self.visit(n1), self.visit(n2), \
+                    self.visit(body)
+                gens = [ast.comprehension(
+                    target=ast.Name(id=v.id, ctx=ast.Store()),
+                    iter=ast.Call(func=ast.Name(id="range", ctx=ast.Load()),
+                                  args=[nn], keywords=[]),
+                    ifs=[], is_async=0) for v, nn in ((i, n1), (k, n2))]
+                return ast.Call(
+                    func=ast.Name(id="all", ctx=ast.Load()),
+                    args=[ast.GeneratorExp(elt=body, generators=gens)],
+                    keywords=[])
             if n == "implies":
                 a, b = self.visit(node.args[0]), self.visit(node.args[1])
                 return ast.BoolOp(op=ast.Or(), values=[
